@@ -629,6 +629,12 @@ def index_tensor(it, tv, items, node):
     shape = tv.shape
     spec = tuple(_spec_item(x) for x in items)
     adv = [x for x in items if isinstance(x, (VTens, VList))]
+    if tv.kind == "ndarray":
+        # numpy reads a torch tensor with exactly one element as an integer (operator.index succeeds): array[tensor] then
+        # drops the indexed axis instead of keeping an axis of length 1
+        for x in items:
+            if isinstance(x, VTens) and x.kind == "tensor" and x.shape is not None and len(x.shape) == 1 and not (isinstance(x.shape[0], int) and x.shape[0] != 1) and x.obj.valkind != "bool":
+                it.interop.append((it.site(node), tv, x))
     unk = [x for x in items if isinstance(x, VUnknown)]
     # ---- shape
     new_shape = None
